@@ -895,6 +895,9 @@ class Folder:
                 if t is not None and hasattr(t, "node") and isinstance(t.node, ast.FunctionDef) and t.params and t.params[0] in ("self", "cls") and len(self.func_stack) < 8:
                     kw = self._kwargs(n, env)
                     return self.call(t.node, [recv] + args, kw)
+                if t is not None and hasattr(t, "node") and isinstance(t.node, ast.FunctionDef) and len(self.func_stack) < 8 \
+                        and [getattr(d, "id", None) for d in t.node.decorator_list] == ["staticmethod"]:
+                    return self.call(t.node, args, self._kwargs(n, env))
         raise Refuse(f"method {f.attr} on {type(recv).__name__}")
 
     def _kwargs(self, n, env):
